@@ -218,90 +218,6 @@ spec fn range_set(s: int, n: int) -> ISet<u8> {
     ISet::new(|r: u8| s <= r < s + n)
 }
 
-// ---- source map: strictly increasing offsets, lookup = last entry at or before the instruction ---
-spec fn sm_wf(sm: Seq<SourceMapEntry>, code_len: int) -> bool {
-    &&& forall|i: int, j: int| 0 <= i < j < sm.len() ==> sm[i].bytecode_offset < sm[j].bytecode_offset
-    &&& forall|i: int| 0 <= i < sm.len() ==> (#[trigger] sm[i]).bytecode_offset < code_len
-}
-
-spec fn lookup(sm: Seq<SourceMapEntry>, i: int) -> Option<Span>
-    decreases sm.len(),
-{
-    if sm.len() == 0 {
-        None
-    } else if sm.last().bytecode_offset <= i {
-        Some(sm.last().span)
-    } else {
-        lookup(sm.drop_last(), i)
-    }
-}
-
-proof fn lemma_lookup_push(sm: Seq<SourceMapEntry>, e: SourceMapEntry, i: int)
-    ensures
-        e.bytecode_offset <= i ==> lookup(sm.push(e), i) == Some(e.span),
-        e.bytecode_offset > i ==> lookup(sm.push(e), i) == lookup(sm, i),
-{
-    assert(sm.push(e).last() == e);
-    assert(sm.push(e).drop_last() =~= sm);
-}
-
-proof fn lemma_lookup_push_any(sm: Seq<SourceMapEntry>)
-    ensures
-        forall|e: SourceMapEntry, i: int| #[trigger] lookup(sm.push(e), i) == (if e.bytecode_offset <= i { Some(e.span) } else { lookup(sm, i) }),
-{
-    assert forall|e: SourceMapEntry, i: int| #[trigger] lookup(sm.push(e), i) == (if e.bytecode_offset <= i { Some(e.span) } else { lookup(sm, i) }) by {
-        lemma_lookup_push(sm, e, i);
-    }
-}
-
-spec fn sm_sorted(sm: Seq<SourceMapEntry>) -> bool {
-    forall|i: int, j: int| 0 <= i < j < sm.len() ==> sm[i].bytecode_offset < sm[j].bytecode_offset
-}
-
-// TRUSTED wrapper for rule R9; its body is the std call it replaces.  Contract = std's documented contract of
-// binary_search_by_key on a slice sorted by the key (cross-checked by the bounded Kani harness srcmap_lookup_*).
-#[verifier::external_body]
-fn vf_bsearch_offset(v: &Vec<SourceMapEntry>, key: usize) -> (r: Result<usize, usize>)
-    ensures
-        sm_sorted(v@) ==> match r {
-            Ok(i) => i < v@.len() && v@[i as int].bytecode_offset == key,
-            Err(i) => i <= v@.len()
-                && (forall|j: int| 0 <= j < i ==> (#[trigger] v@[j]).bytecode_offset < key)
-                && (forall|j: int| i <= j < v@.len() ==> (#[trigger] v@[j]).bytecode_offset > key),
-        },
-{ v.binary_search_by_key(&key, |e| e.bytecode_offset) }
-
-// lookup (defined from the end) == the entry at the greatest index whose offset is <= q
-proof fn lemma_lookup_characterisation(sm: Seq<SourceMapEntry>, q: int, k: int)
-    requires
-        sm_sorted(sm),
-        0 <= k <= sm.len(),
-        forall|j: int| 0 <= j < k ==> (#[trigger] sm[j]).bytecode_offset <= q,
-        forall|j: int| k <= j < sm.len() ==> (#[trigger] sm[j]).bytecode_offset > q,
-    ensures
-        k == 0 ==> lookup(sm, q) is None,
-        k > 0 ==> lookup(sm, q) == Some(sm[k - 1].span),
-    decreases sm.len(),
-{
-    if sm.len() > 0 {
-        if sm.last().bytecode_offset <= q {
-            assert(k == sm.len()) by { if k < sm.len() { assert(sm[sm.len() - 1].bytecode_offset > q); } }
-        } else {
-            let d = sm.drop_last();
-            assert(k < sm.len()) by { if k == sm.len() { assert(sm[sm.len() - 1].bytecode_offset <= q); } }
-            assert(sm_sorted(d)) by {
-                assert forall|i: int, j: int| 0 <= i < j < d.len() implies d[i].bytecode_offset < d[j].bytecode_offset by {
-                    assert(d[i] == sm[i] && d[j] == sm[j]);
-                }
-            }
-            assert forall|j: int| 0 <= j < k implies (#[trigger] d[j]).bytecode_offset <= q by { assert(d[j] == sm[j]); }
-            assert forall|j: int| k <= j < d.len() implies (#[trigger] d[j]).bytecode_offset > q by { assert(d[j] == sm[j]); }
-            lemma_lookup_characterisation(d, q, k);
-            if k > 0 { assert(d[k - 1] == sm[k - 1]); }
-        }
-    }
-}
-
 // ---- jump operands ------------------------------------------------------------------------------
 spec fn with_target(op: Op, t: u32) -> Op {
     match op {
